@@ -38,10 +38,15 @@ def run(prop, tier, seed):
             if (i + j) % 13 == 0:
                 cases.append(schedlib.with_drive(c, i, d, {"trace": 3} if (i + j) % 39 == 0 or tier != "quick" else None))
     obs, _ = vlib.run_harness(cases, wd, jobs=12, timeout=30)
-    ncomp = 0
+    ncomp = nlimit = 0
     for c, o in zip(cases, obs):
         if o.get("compile") != "ok":
             ncomp += 1
+            continue
+        if o.get("status") == "steplimit" and c.get("maxsteps"):
+            # the driver's own bound on a traced run (it keeps the trace small), not an observation about the runtime:
+            # the other drives of the same program run without it
+            nlimit += 1
             continue
         mism = vlib.compare(c["expect"], o)
         if mism:
@@ -55,7 +60,7 @@ def run(prop, tier, seed):
         "evaluations": len(cases), "distinct_nontrivial": len({c["id"] for c in cases}),
         "rule": "program x embedder drive (budget pattern, servicing delay) from spec/vm/Slicing.tla; programs = AbraSched scenarios, "
                 "AbraGen programs, all host signatures of the tier's arity (exhaustive); distinct = distinct (program, drive)",
-        "host_signatures": len(host), "scenario_programs": len(scn), "generated_programs": len(gen), "not_compiled_skipped": ncomp,
+        "host_signatures": len(host), "scenario_programs": len(scn), "generated_programs": len(gen), "not_compiled_skipped": ncomp, "traced_runs_cut_by_the_drivers_step_bound": nlimit,
         "drives_tasks": len(d_tasks), "drives_plain": len(d_plain),
         "samples": [{"id": c["id"], "budgets": c["budgets"], "delay": c["delay"], "source": c["files"]["main.abra"][:300]} for c in cases[:2]] +
                    [vlib.sample_cases(host, 1)[0]],
